@@ -115,6 +115,75 @@ theorem evaluator_countdown (n : Nat) (w : World) :
     ∃ (h : Nat) (s' : Store), Eval (alloc initStore (NatSemP.countdown n) ⟨[], []⟩) w (.frame initStore.cells.size) h
         (.ok (.arg (.strict (.int 0)))) s' w := by_name_program _ _ w (bn_countdown n)
 
+/-! ### a non-tail recursion, for every argument: `s(k) = (k = 0)(0, k + s(k + (−1)))` -/
+
+def sumBody : AST :=
+  .call (.call (.lit 1 NatSemP.sp0) [.argRef (.lit 0 NatSemP.sp0) 0 NatSemP.sp0, .lit 0 NatSemP.sp0] NatSemP.sp0)
+    [.lit 0 NatSemP.sp0,
+     .call (.lit 2 NatSemP.sp0) [.argRef (.lit 0 NatSemP.sp0) 0 NatSemP.sp0,
+       .call (.funRef 0 NatSemP.sp0)
+         [.call (.lit 2 NatSemP.sp0) [.argRef (.lit 0 NatSemP.sp0) 0 NatSemP.sp0, .lit (-1) NatSemP.sp0] NatSemP.sp0] NatSemP.sp0] NatSemP.sp0]
+    NatSemP.sp0
+
+def sumProg (n : Int) : AST := .call (.funDef sumBody NatSemP.sp0) [.lit n NatSemP.sp0] NatSemP.sp0
+
+/-- 0 + 1 + … + k -/
+def tri : Nat → Int
+  | 0 => 0
+  | k + 1 => ((k + 1 : Nat) : Int) + tri k
+
+theorem bn_sum_loop : ∀ (k : Nat) (a : AST) (ρa : TEnv), BN ρa a (.int k) →
+    BN (.mk [(sumBody, .mk [] [])] [[(a, ρa)]]) sumBody (.int (tri k)) := by
+  intro k
+  induction k with
+  | zero =>
+    intro a ρa ha
+    have harg : BN (.mk [(sumBody, .mk [] [])] [[(a, ρa)]]) (.argRef (.lit 0 NatSemP.sp0) 0 NatSemP.sp0) (.int 0) :=
+      BN.argRef (frame := [(a, ρa)]) (i := 0) rfl BN.lit (by simp) rfl ha
+    have hc := BN.eqInt (n := 1) (spf := NatSemP.sp0) (sp := NatSemP.sp0) (by decide +kernel) harg (BN.lit (n := 0) (sp := NatSemP.sp0))
+    exact BN.sel (b := true) rfl hc BN.lit
+  | succ k ih =>
+    intro a ρa ha
+    have harg : BN (.mk [(sumBody, .mk [] [])] [[(a, ρa)]]) (.argRef (.lit 0 NatSemP.sp0) 0 NatSemP.sp0) (.int ((k + 1 : Nat) : Int)) :=
+      BN.argRef (frame := [(a, ρa)]) (i := 0) rfl BN.lit (by simp) rfl ha
+    have hc := BN.eqInt (n := 1) (spf := NatSemP.sp0) (sp := NatSemP.sp0) (by decide +kernel) harg (BN.lit (n := 0) (sp := NatSemP.sp0))
+    have hne : (((k + 1 : Nat) : Int) == 0) = false := by
+      simp only [beq_eq_false_iff_ne, ne_eq]; omega
+    rw [hne] at hc
+    refine BN.sel (b := false) rfl hc ?_
+    have hdec := BN.addInt (n := 2) (spf := NatSemP.sp0) (sp := NatSemP.sp0) (by decide +kernel) harg (BN.lit (n := -1) (sp := NatSemP.sp0))
+    have hk : (((k + 1 : Nat) : Int) + -1) = (k : Int) := by omega
+    rw [hk] at hdec
+    have hrec : BN (.mk [(sumBody, .mk [] [])] [[(a, ρa)]])
+        (.call (.funRef 0 NatSemP.sp0) [.call (.lit 2 NatSemP.sp0) [.argRef (.lit 0 NatSemP.sp0) 0 NatSemP.sp0, .lit (-1) NatSemP.sp0] NatSemP.sp0] NatSemP.sp0)
+        (.int (tri k)) :=
+      BN.call (b := sumBody) (ρd := .mk [] []) rfl (BN.funRef rfl) (ih _ _ hdec)
+    exact BN.addInt (n := 2) (spf := NatSemP.sp0) (sp := NatSemP.sp0) (by decide +kernel) harg hrec
+
+/-- **for every natural number `n`** the by-name value of the summation program is 0 + 1 + … + n — a recursion that is
+*not* a tail call (the pending addition) … -/
+theorem bn_sum (n : Nat) : BN (.mk [] []) (sumProg n) (.int (tri n)) :=
+  BN.call (b := sumBody) (ρd := .mk [] []) rfl BN.funDef (bn_sum_loop n _ _ BN.lit)
+
+/-- … and so is what the evaluator computes, for every `n` -/
+theorem evaluator_sum (n : Nat) (w : World) :
+    ∃ (h : Nat) (s' : Store), Eval (alloc initStore (sumProg n) ⟨[], []⟩) w (.frame initStore.cells.size) h
+        (.ok (.arg (.strict (.int (tri n))))) s' w := by_name_program _ _ w (bn_sum n)
+
+theorem tri_closed_form (n : Nat) : 2 * tri n = (n : Int) * ((n : Int) + 1) := by
+  induction n with
+  | zero => rfl
+  | succ k ih =>
+    simp only [tri]
+    have : (2 : Int) * (((k + 1 : Nat) : Int) + tri k) = 2 * ((k + 1 : Nat) : Int) + 2 * tri k := by
+      rw [Int.mul_add]
+    rw [this, ih]
+    have e : ((k + 1 : Nat) : Int) = (k : Int) + 1 := by omega
+    rw [e]
+    have : ((k : Int) + 1) * ((k : Int) + 1 + 1) = 2 * ((k : Int) + 1) + (k : Int) * ((k : Int) + 1) := by
+      rw [Int.add_mul, Int.mul_add, Int.mul_add, Int.mul_add]; omega
+    omega
+
 /-! ### C03 in the reference semantics: what is not needed does not matter -/
 
 /-- the branch a Boolean does not select is irrelevant: replacing it by *any* expression — one that raises, diverges or is
